@@ -560,6 +560,7 @@ func checkC06(c *Ctx, r *Report) {
 		create *ssa.Call
 		method string
 		name   string
+		sink   ssa.Value // set for closers obtained from a module factory
 	}
 	var closers []closerInst
 
@@ -575,7 +576,7 @@ func checkC06(c *Ctx, r *Report) {
 			if cv, ok := call.(*ssa.Call); ok {
 				if o := calleeObj(call); o != nil {
 					if m, ok := closerCtors[qualifiedName(o)]; ok {
-						closers = append(closers, closerInst{fn, cv, m, qualifiedName(o)})
+						closers = append(closers, closerInst{fn, cv, m, qualifiedName(o), nil})
 					}
 				}
 			}
@@ -658,16 +659,79 @@ func checkC06(c *Ctx, r *Report) {
 	}
 	r.Count("error_returning_calls", calls)
 	r.Count("discard_sites", discards)
-	r.Floor("E1", discards, 15)
+	r.Floor("E1", discards, 8)
 
 	// ---- E2 ----
+	// factories: a module function that returns the closer it created hands
+	// the obligation to its callers; a call of it is a closer construction
+	// there (sink = the argument that the factory layers the closer over).
+	closerFactories = map[*ssa.Function]string{}
+	for round := 0; round < 3; round++ {
+		var next []closerInst
+		grew := false
+		for _, ci := range closers {
+			if idx, ok := returnedCloser(ci.fn, ci.create); ok && c.isModuleFunc(ci.fn) {
+				if _, seen := closerFactories[ci.fn]; !seen {
+					grew = true
+				}
+				closerFactories[ci.fn] = ci.method
+				sinkParam := -1
+				var under ssa.Value = ci.sink
+				if under == nil && len(ci.create.Call.Args) > 0 && !strings.HasPrefix(ci.name, "os.") {
+					under = ci.create.Call.Args[0]
+				}
+				for i, prm := range ci.fn.Params {
+					if under != nil && (under == ssa.Value(prm) || stripIface(under) == ssa.Value(prm)) {
+						sinkParam = i
+					}
+				}
+				_ = idx
+				factorySink[ci.fn] = sinkParam
+				continue
+			}
+			next = append(next, ci)
+		}
+		closers = next
+		if !grew {
+			break
+		}
+		for _, fn := range sortedFuncs(c, scope) {
+			forEachInstr(fn, func(in ssa.Instruction) {
+				cv, ok := in.(*ssa.Call)
+				if !ok {
+					return
+				}
+				sc := cv.Call.StaticCallee()
+				if sc == nil {
+					return
+				}
+				m, isF := closerFactories[sc]
+				if !isF {
+					return
+				}
+				for _, ex := range closers {
+					if ex.create == cv {
+						return
+					}
+				}
+				var sink ssa.Value
+				if p := factorySink[sc]; p >= 0 && p < len(cv.Call.Args) {
+					sink = cv.Call.Args[p]
+				}
+				closers = append(closers, closerInst{fn, cv, m, "factory " + c.funcKey(sc), sink})
+			})
+		}
+	}
+
 	e2, e2m := 0, 0
 	for _, ci := range closers {
 		if !scope[ci.fn] {
 			continue
 		}
 		var sinkArg ssa.Value
-		if len(ci.create.Call.Args) > 0 && !strings.HasPrefix(ci.name, "os.") {
+		if ci.sink != nil {
+			sinkArg = ci.sink
+		} else if len(ci.create.Call.Args) > 0 && !strings.HasPrefix(ci.name, "os.") && !strings.HasPrefix(ci.name, "factory ") {
 			sinkArg = ci.create.Call.Args[0]
 		}
 		n := 0
@@ -693,8 +757,8 @@ func checkC06(c *Ctx, r *Report) {
 		ok, why := closerChecked(c, ci.fn, ci.create, ci.method)
 		r.Check(ok, "E2", construct, c.instrPos(ci.create), why)
 	}
-	r.Floor("E2", e2, 3)
-	r.Floor("E2m", e2m, 14)
+	r.Floor("E2", e2, 2)
+	r.Floor("E2m", e2m, 10)
 
 	checkD9(c, r)
 	checkE3(c, r)
@@ -777,6 +841,11 @@ func receiverIsTrackedCloser(call ssa.CallInstruction) bool {
 		seen[v] = true
 		switch x := v.(type) {
 		case *ssa.Call:
+			if sc := x.Call.StaticCallee(); sc != nil {
+				if _, isF := closerFactories[sc]; isF {
+					return true
+				}
+			}
 			if o := calleeObj(x); o != nil {
 				_, ok := closerCtors[qualifiedName(o)]
 				return ok
@@ -1482,7 +1551,7 @@ func checkD9(c *Ctx, r *Report) {
 		n++
 		r.Check(okName, "D9", "archlinux: invalid package name in "+c.funcKey(pk.Package), c.pos(pk.Package.Pos()), "the name-validity test's failing edge must return a non-nil error before any output is written")
 	}
-	r.Floor("D9", n, 6)
+	r.Floor("D9", n, 5)
 }
 
 // flowsToReturn: the value is an operand of a return (also through the
@@ -1513,19 +1582,53 @@ func usedInNilTest(v ssa.Value) bool {
 func comparesFieldToConst(fn *ssa.Function, path string) bool {
 	found := false
 	forEachInstr(fn, func(in ssa.Instruction) {
-		bo, ok := in.(*ssa.BinOp)
-		if !ok || (bo.Op != token.EQL && bo.Op != token.NEQ) {
+		ld, ok := in.(*ssa.UnOp)
+		if !ok || ld.Op != token.MUL {
 			return
 		}
-		for _, side := range []ssa.Value{bo.X, bo.Y} {
-			if ld, ok := side.(*ssa.UnOp); ok && ld.Op == token.MUL {
-				if p, _ := addrPath(ld.X); p == path {
-					found = true
-				}
-			}
+		if p, _ := addrPath(ld.X); p != path {
+			return
+		}
+		if valueComparedToConst(ld, 0) {
+			found = true
 		}
 	})
 	return found
+}
+
+// valueComparedToConst: the value is an operand of ==/!= against a constant,
+// here or - handed on as an argument - in a module callee (the setting's
+// switch extracted into a helper).
+func valueComparedToConst(v ssa.Value, depth int) bool {
+	if v.Referrers() == nil || depth > 2 {
+		return false
+	}
+	for _, ref := range *v.Referrers() {
+		switch x := ref.(type) {
+		case *ssa.BinOp:
+			if x.Op != token.EQL && x.Op != token.NEQ {
+				continue
+			}
+			other := x.Y
+			if x.Y == v {
+				other = x.X
+			}
+			if _, isConst := other.(*ssa.Const); isConst {
+				return true
+			}
+		case *ssa.Call:
+			sc := x.Call.StaticCallee()
+			if sc == nil || sc.Blocks == nil {
+				continue
+			}
+			for i, a := range x.Call.Args {
+				if a == v && i < len(sc.Params) && valueComparedToConst(sc.Params[i], depth+1) {
+					return true
+				}
+			}
+		}
+	}
+	return false
 }
 
 func returnsSigningFailure(fn *ssa.Function) bool {
@@ -1686,78 +1789,9 @@ func rangeCloseDone(call *ssa.Call) (*ssa.BasicBlock, []ssa.Value) {
 	if !ok {
 		return nil, nil
 	}
-	var arr *ssa.Alloc
-	switch x := ia.X.(type) {
-	case *ssa.Slice:
-		if x.Low != nil || x.High != nil || x.Max != nil {
-			return nil, nil
-		}
-		arr, _ = x.X.(*ssa.Alloc)
-	case *ssa.Alloc:
-		arr = x
-	}
+	arr, done := fullRangeOver(ia, call)
 	if arr == nil {
 		return nil, nil
-	}
-	at, ok := derefType(arr.Type()).Underlying().(*types.Array)
-	if !ok {
-		return nil, nil
-	}
-	inc, ok := ia.Index.(*ssa.BinOp)
-	if !ok || inc.Op != token.ADD {
-		return nil, nil
-	}
-	phi, ok := inc.X.(*ssa.Phi)
-	if k, isK := inc.Y.(*ssa.Const); !ok || !isK || k.Value == nil || k.Int64() != 1 {
-		return nil, nil
-	}
-	if len(phi.Edges) != 2 {
-		return nil, nil
-	}
-	init := false
-	for _, e := range phi.Edges {
-		if k, isK := e.(*ssa.Const); isK && k.Value != nil && k.Int64() == -1 {
-			init = true
-		} else if e != ssa.Value(inc) {
-			return nil, nil
-		}
-	}
-	if !init {
-		return nil, nil
-	}
-	h := phi.Block()
-	ifi, ok := h.Instrs[len(h.Instrs)-1].(*ssa.If)
-	if !ok {
-		return nil, nil
-	}
-	cmp, ok := ifi.Cond.(*ssa.BinOp)
-	if !ok || cmp.Op != token.LSS || cmp.X != ssa.Value(inc) {
-		return nil, nil
-	}
-	switch l := cmp.Y.(type) {
-	case *ssa.Const:
-		if l.Value == nil || l.Int64() != at.Len() {
-			return nil, nil
-		}
-	case *ssa.Call:
-		b, isB := l.Call.Value.(*ssa.Builtin)
-		if !isB || b.Name() != "len" || len(l.Call.Args) != 1 || l.Call.Args[0] != ia.X {
-			return nil, nil
-		}
-	default:
-		return nil, nil
-	}
-	done := h.Succs[1]
-	if len(done.Preds) != 1 || done.Preds[0] != h {
-		return nil, nil
-	}
-	for _, p := range h.Preds {
-		if h.Dominates(p) || p == h {
-			// back edge: this iteration must have passed the call
-			if p != call.Block() && !call.Block().Dominates(p) {
-				return nil, nil
-			}
-		}
 	}
 	// the array's elements: constant-index stores only, one per slot
 	var elems []ssa.Value
@@ -1789,6 +1823,159 @@ func rangeCloseDone(call *ssa.Call) (*ssa.BasicBlock, []ssa.Value) {
 		}
 	}
 	return done, elems
+}
+
+// fullRangeOver: ia is the element address of a `for ... range` loop over a
+// whole local literal array (or a full slice of it) that visits every element
+// and can be left only through its exhausted condition or a return; every
+// back edge is dominated by `through`. Returns the array and the exit block.
+func fullRangeOver(ia *ssa.IndexAddr, through ssa.Instruction) (*ssa.Alloc, *ssa.BasicBlock) {
+	var arr *ssa.Alloc
+	switch x := ia.X.(type) {
+	case *ssa.Slice:
+		if x.Low != nil || x.High != nil || x.Max != nil {
+			return nil, nil
+		}
+		arr, _ = x.X.(*ssa.Alloc)
+	case *ssa.Alloc:
+		arr = x
+	}
+	if arr == nil {
+		return nil, nil
+	}
+	at, ok := derefType(arr.Type()).Underlying().(*types.Array)
+	if !ok {
+		return nil, nil
+	}
+	inc, ok := ia.Index.(*ssa.BinOp)
+	if !ok || inc.Op != token.ADD {
+		return nil, nil
+	}
+	phi, ok := inc.X.(*ssa.Phi)
+	if k, isK := inc.Y.(*ssa.Const); !ok || !isK || k.Value == nil || k.Int64() != 1 {
+		return nil, nil
+	}
+	inits := 0
+	for _, e := range phi.Edges {
+		if k, isK := e.(*ssa.Const); isK && k.Value != nil && k.Int64() == -1 {
+			inits++
+		} else if e != ssa.Value(inc) {
+			return nil, nil
+		}
+	}
+	if inits != 1 {
+		return nil, nil
+	}
+	h := phi.Block()
+	ifi, ok := h.Instrs[len(h.Instrs)-1].(*ssa.If)
+	if !ok {
+		return nil, nil
+	}
+	cmp, ok := ifi.Cond.(*ssa.BinOp)
+	if !ok || cmp.Op != token.LSS || cmp.X != ssa.Value(inc) {
+		return nil, nil
+	}
+	switch l := cmp.Y.(type) {
+	case *ssa.Const:
+		if l.Value == nil || l.Int64() != at.Len() {
+			return nil, nil
+		}
+	case *ssa.Call:
+		b, isB := l.Call.Value.(*ssa.Builtin)
+		if !isB || b.Name() != "len" || len(l.Call.Args) != 1 || l.Call.Args[0] != ia.X {
+			return nil, nil
+		}
+	default:
+		return nil, nil
+	}
+	done := h.Succs[1]
+	if len(done.Preds) != 1 || done.Preds[0] != h {
+		return nil, nil
+	}
+	for _, p := range h.Preds {
+		if h.Dominates(p) || p == h {
+			// back edge: this iteration must have passed the instruction
+			if p != through.Block() && !through.Block().Dominates(p) {
+				return nil, nil
+			}
+		}
+	}
+	return arr, done
+}
+
+// tableRows: the rows of a local literal array of structs, by constant index:
+// field name -> stored value. nil when the array is written in any other way.
+func tableRows(arr *ssa.Alloc, loopElem *ssa.IndexAddr) []map[string]ssa.Value {
+	at, ok := derefType(arr.Type()).Underlying().(*types.Array)
+	if !ok {
+		return nil
+	}
+	rows := make([]map[string]ssa.Value, at.Len())
+	for i := range rows {
+		rows[i] = map[string]ssa.Value{}
+	}
+	for _, ref := range *arr.Referrers() {
+		switch x := ref.(type) {
+		case *ssa.IndexAddr:
+			if x == loopElem {
+				continue
+			}
+			k, isK := x.Index.(*ssa.Const)
+			if !isK || k.Value == nil || k.Int64() < 0 || k.Int64() >= at.Len() {
+				return nil
+			}
+			for _, r2 := range *x.Referrers() {
+				switch y := r2.(type) {
+				case *ssa.FieldAddr:
+					for _, r3 := range *y.Referrers() {
+						st, isSt := r3.(*ssa.Store)
+						if !isSt || st.Addr != ssa.Value(y) {
+							return nil
+						}
+						rows[k.Int64()][fieldName(y.X.Type(), y.Field)] = st.Val
+					}
+				case *ssa.Store:
+					// the row is a composite literal built in a local and
+					// copied into the slot as a whole
+					ld, isLd := y.Val.(*ssa.UnOp)
+					if y.Addr != ssa.Value(x) || !isLd || ld.Op != token.MUL {
+						return nil
+					}
+					lit, isAl := ld.X.(*ssa.Alloc)
+					if !isAl {
+						return nil
+					}
+					for _, r3 := range *lit.Referrers() {
+						switch z := r3.(type) {
+						case *ssa.FieldAddr:
+							for _, r4 := range *z.Referrers() {
+								st, isSt := r4.(*ssa.Store)
+								if !isSt || st.Addr != ssa.Value(z) {
+									return nil
+								}
+								rows[k.Int64()][fieldName(z.X.Type(), z.Field)] = st.Val
+							}
+						case *ssa.UnOp:
+							if z != ld {
+								return nil
+							}
+						default:
+							return nil
+						}
+					}
+				default:
+					return nil
+				}
+			}
+		case *ssa.Slice:
+			if loopElem != nil && ssa.Value(x) != loopElem.X {
+				return nil
+			}
+		default:
+			return nil
+		}
+	}
+	return rows
 }
 
 // rangeCloses lists the exit blocks of range-close loops (see rangeCloseDone)
@@ -1831,4 +2018,88 @@ func blockCovers(bs []*ssa.BasicBlock, at ssa.Instruction) bool {
 		}
 	}
 	return false
+}
+
+// closerFactories: module functions that return a closer they created (filled
+// by checkC06), with the completing method; factorySink: which parameter the
+// closer is layered over (-1 unknown).
+var closerFactories = map[*ssa.Function]string{}
+var factorySink = map[*ssa.Function]int{}
+
+func stripIface(v ssa.Value) ssa.Value {
+	for {
+		switch x := v.(type) {
+		case *ssa.MakeInterface:
+			v = x.X
+		case *ssa.ChangeInterface:
+			v = x.X
+		default:
+			return v
+		}
+	}
+}
+
+// returnedCloser: the created closer (or an alias) is a result of a return of
+// fn - ownership passes to the caller.
+func returnedCloser(fn *ssa.Function, create *ssa.Call) (int, bool) {
+	aliases := aliasesOf(create)
+	for _, b := range fn.Blocks {
+		ret, ok := b.Instrs[len(b.Instrs)-1].(*ssa.Return)
+		if !ok {
+			continue
+		}
+		for i, res := range retResults(ret) {
+			if aliases[res] {
+				return i, true
+			}
+		}
+	}
+	return -1, false
+}
+
+// loopElemField: v reads field `field` of the element a range loop is
+// visiting: members[i].f, the value copy `m := members[i]; m.f`, or the SSA
+// Field of the loaded element.
+func loopElemField(v ssa.Value) (*ssa.IndexAddr, string, bool) {
+	elemOf := func(x ssa.Value) *ssa.IndexAddr {
+		ld, ok := x.(*ssa.UnOp)
+		if !ok || ld.Op != token.MUL {
+			return nil
+		}
+		ia, _ := ld.X.(*ssa.IndexAddr)
+		return ia
+	}
+	switch x := v.(type) {
+	case *ssa.Field:
+		if ia := elemOf(x.X); ia != nil {
+			return ia, fieldName(x.X.Type(), x.Field), true
+		}
+	case *ssa.UnOp:
+		if x.Op != token.MUL {
+			return nil, "", false
+		}
+		fa, ok := x.X.(*ssa.FieldAddr)
+		if !ok {
+			return nil, "", false
+		}
+		name := fieldName(fa.X.Type(), fa.Field)
+		switch base := fa.X.(type) {
+		case *ssa.IndexAddr:
+			return base, name, true
+		case *ssa.Alloc:
+			// local copy of the element: exactly one whole-struct store
+			var src *ssa.IndexAddr
+			n := 0
+			for _, ref := range *base.Referrers() {
+				if st, ok := ref.(*ssa.Store); ok && st.Addr == ssa.Value(base) {
+					n++
+					src = elemOf(st.Val)
+				}
+			}
+			if n == 1 && src != nil {
+				return src, name, true
+			}
+		}
+	}
+	return nil, "", false
 }
